@@ -397,19 +397,20 @@ func (v Value) assign(t Type) Value {
 	case v.t == t:
 		return v
 	case v.t == untypedInt:
+		// through int64: an untyped value may exceed the target (1 << n with a variable n) and wraps into it
 		switch t {
 		case TypeFloat64:
 			return Value{t: t, num: v.num}
 		case TypeInt32:
-			return Value{t: t, num: float64(int32(v.num))}
+			return Value{t: t, num: float64(int32(int64(v.num)))}
 		case TypeUint32:
-			return Value{t: t, num: float64(uint32(v.num))}
+			return Value{t: t, num: float64(uint32(int64(v.num)))}
 		case TypeInt8:
-			return Value{t: t, num: float64(int8(v.num))}
+			return Value{t: t, num: float64(int8(int64(v.num)))}
 		case TypeUint8:
-			return Value{t: t, num: float64(uint8(v.num))}
+			return Value{t: t, num: float64(uint8(int64(v.num)))}
 		default:
-			return Value{t: TypeInt32, num: float64(int32(v.num))}
+			return Value{t: TypeInt32, num: float64(int32(int64(v.num)))}
 		}
 	case v.t != TypeNil:
 		return v
@@ -513,16 +514,13 @@ func (v Value) opMod(b Value) Value {
 }
 
 // shiftOperands returns the result type of a shift, which is the type of its left operand whatever the
-// type of the count (an untyped left operand keeps taking the mixed type), and the non-negative count.
+// type of the count, and the non-negative count. An untyped constant shifted by a variable stays untyped: it takes
+// its type from where the result is used (var x int32 = 1 << n), as its left operand alone would.
 func shiftOperands(v, b Value) (Type, uint) {
 	if b.num < 0 {
 		panic("negative shift amount")
 	}
-	t := v.t
-	if t&typedNumberMask == 0 {
-		t = mixType(v.t, b.t)
-	}
-	return t, uint(b.num)
+	return v.t, uint(b.num)
 }
 
 func (v Value) opBitLsh(b Value) Value {
